@@ -30,7 +30,9 @@ def hostile_datagrams(rng, pair, n):
     hist = [d for (_, _, d) in pair.delivered if not (d[18] == 34 and d[19] & 0x20)]
     known = [bytes(s.my_spi) for ep in (pair.A, pair.B) for s in ep.controller.ike_sas]
     for _ in range(n):
-        k = rng.randrange(14)
+        k = rng.randrange(16)
+        if k >= 14:
+            k = 13
         src = '192.168.0.1'
         if k == 0:
             data, kind = bytes(rng.getrandbits(8) for _ in range(rng.randrange(0, 28))), 'short'
@@ -77,12 +79,58 @@ def hostile_datagrams(rng, pair, n):
                                                                                   0x20, 34, 0x08]) + \
                 struct.pack('>LL', 0, 28 + len(body)) + body
             kind = 'length-sweep'
+        elif k == 13:    # length fields at the nested levels (selector, proposal, transform, attribute, SPI count)
+            ln = rng.choice([0, 1, 2, 3, 4, 7, 8, 15, 16, 40, 0xFFFF])
+            which = rng.randrange(4)
+            pad = bytes(rng.getrandbits(8) for _ in range(rng.choice([0, 8, 16, 40, 64])))
+            if which == 0:       # TSi/TSr: one selector whose Selector Length is ln
+                ptype = rng.choice([44, 45])
+                body = bytes([1, 0, 0, 0]) + bytes([rng.choice([7, 8]), 0]) + struct.pack('>H', ln) + bytes(4) + pad
+            elif which == 1:     # SA: proposal length ln
+                ptype = 33
+                body = bytes([0, 0]) + struct.pack('>H', ln) + bytes([1, 1, 0, 1]) + bytes([0, 0, 0, 8, 1, 0, 0, 12]) + pad
+            elif which == 2:     # SA: transform length ln inside a well-formed proposal
+                ptype = 33
+                tr = bytes([0, 0]) + struct.pack('>H', ln) + bytes([1, 0, 0, 12]) + pad
+                body = bytes([0, 0]) + struct.pack('>H', 8 + len(tr)) + bytes([1, 1, 0, 1]) + tr
+            else:                # DELETE announcing many SPIs / NOTIFY with SPI size beyond the data
+                ptype = rng.choice([42, 41])
+                body = bytes([3, rng.choice([0, 4, 255])]) + struct.pack('>H', ln) + pad
+            data = bytes(rng.getrandbits(8) for _ in range(8)) + bytes(8) + bytes([ptype, 0x20, 34, 0x08]) + \
+                struct.pack('>LL', 0, 32 + len(body)) + bytes([0, 0]) + struct.pack('>H', 4 + len(body)) + body
+            kind = 'nested-length-sweep'
         elif k == 12 and hist:       # an authentic datagram from the wrong source address
             src = '10.9.9.9'
             data, kind = rng.choice(hist), 'authentic-from-unknown-address'
         else:
             data, kind = b'', 'empty'
         out.append((kind, data, src))
+    return out
+
+
+def nested_sweep():
+    """the complete sweep: nested level x length field x amount of data behind it (deterministic)"""
+    out = []
+    for which in range(4):
+        for ln in (0, 1, 2, 3, 4, 7, 8, 15, 16, 40, 0xFFFF):
+            for npad in (0, 8, 16, 40, 64):
+                pad = bytes((i * 37 + 11) % 256 for i in range(npad))
+                if which == 0:
+                    ptype = 44
+                    body = bytes([1, 0, 0, 0]) + bytes([7, 0]) + struct.pack('>H', ln) + bytes(4) + pad
+                elif which == 1:
+                    ptype = 33
+                    body = bytes([0, 0]) + struct.pack('>H', ln) + bytes([1, 1, 0, 1]) + bytes([0, 0, 0, 8, 1, 0, 0, 12]) + pad
+                elif which == 2:
+                    ptype = 33
+                    tr = bytes([0, 0]) + struct.pack('>H', ln) + bytes([1, 0, 0, 12]) + pad
+                    body = bytes([0, 0]) + struct.pack('>H', 8 + len(tr)) + bytes([1, 1, 0, 1]) + tr
+                else:
+                    ptype = 42
+                    body = bytes([3, 4]) + struct.pack('>H', ln) + pad
+                data = bytes([0x33] * 8) + bytes(8) + bytes([ptype, 0x20, 34, 0x08]) + \
+                    struct.pack('>LL', 0, 32 + len(body)) + bytes([0, 0]) + struct.pack('>H', 4 + len(body)) + body
+                out.append(('nested-length-sweep', data, '192.168.0.1'))
     return out
 
 
@@ -128,7 +176,7 @@ def hostile_xfrm_events(rng, n):
     return out
 
 
-def hostile_session(ctx, seed, legit, per_step, sendto_fail=None, kfail=None, record=None):
+def hostile_session(ctx, seed, legit, per_step, sendto_fail=None, kfail=None, record=None, sweep=False):
     """Run a legitimate scenario through main_loop with hostile input before every step.  Returns failures."""
     fails = []
     rng = random.Random(seed)
@@ -145,9 +193,13 @@ def hostile_session(ctx, seed, legit, per_step, sendto_fail=None, kfail=None, re
             rec.__enter__()
         step = None
         try:
+            first = True
             for a in legit:
                 for ep in (p.A, p.B):
-                    for kind, data, src in hostile_datagrams(rng, p, per_step):
+                    stream = hostile_datagrams(rng, p, per_step)
+                    if first and sweep and ep is p.B:
+                        stream = nested_sweep() + stream
+                    for kind, data, src in stream:
                         step = ('inject', ep.name, kind, data.hex(), src)
                         signal.setitimer(signal.ITIMER_REAL, 5.0)
                         out = ep.datagram(str(ep.addrs[0]), src, data)
@@ -161,6 +213,7 @@ def hostile_session(ctx, seed, legit, per_step, sendto_fail=None, kfail=None, re
                         ep.raw_xfrm_event(ev)
                         signal.setitimer(signal.ITIMER_REAL, 0)
                         ctx.count('hostile:xfrm-event')
+                first = False
                 step = ('legit', a)
                 signal.setitimer(signal.ITIMER_REAL, 5.0)
                 p.do(list(a))
@@ -169,8 +222,9 @@ def hostile_session(ctx, seed, legit, per_step, sendto_fail=None, kfail=None, re
             settle(p)
         except LoopEscape as ex:
             signal.setitimer(signal.ITIMER_REAL, 0)
-            fails.append(Failure('property', 'loop:escaped-exception',
-                                 f'{type(ex.exc).__name__}: {ex.exc} left main_loop at step {step}',
+            fails.append(Failure('property', 'loop:wedged' if isinstance(ex.exc, Hang) else 'loop:escaped-exception',
+                                 (f'main_loop did not come back within 5 s at step {step}' if isinstance(ex.exc, Hang) else
+                                  f'{type(ex.exc).__name__}: {ex.exc} left main_loop at step {step}'),
                                  {'seed': seed, 'legit': legit, 'per_step': per_step, 'step': step,
                                   'sendto_fail': sendto_fail, 'kfail': kfail}))
         except Hang:
@@ -253,8 +307,8 @@ def correspond(ctx):
 
 def oracle(ctx, deep):
     fails = []
-    for name in (LEGIT if deep else LEGIT[:3]):
-        fails += hostile_session(ctx, ctx.rng.getrandbits(32), scripted(name), 12 if deep else 5)
+    for i, name in enumerate(LEGIT if deep else LEGIT[:3]):
+        fails += hostile_session(ctx, ctx.rng.getrandbits(32), scripted(name), 12 if deep else 5, sweep=(i == 0))
         if fails:
             return fails
     # a send failure injected at every sendto call of a handshake + rekey (both endpoints)
